@@ -145,6 +145,9 @@ def ctr_lines(rnd, n, big):
         calls = [str(p) for p in parts]
         if rnd.random() < 0.2:
             calls.insert(rnd.randrange(len(calls) + 1), "R%d" % rnd.getrandbits(64))
+        if rnd.random() < 0.15:
+            # re-initialised and then released unused (or after an empty call): the object still has to be wiped
+            calls += ["R%d" % rnd.getrandbits(64)] + (["0"] if rnd.random() < 0.5 else [])
         L.append("ctr %s %d %s %d %s" % (hx(rbytes(rnd, kl)), nonce, ",".join(calls), rnd.randint(0, 1), hx(rbytes(rnd, ln))))
     # long streams carrying the block counter across byte boundaries: 256 and 65536 blocks
     for ln, reps in ((4096 + 48, big), (65536 + 80, big), (1048576 + 64, max(1, big // 2))):
